@@ -18,8 +18,8 @@ type renderer struct {
 	ind        string
 	restPrefix *string
 	nline      int
-	pos   []posRec
-	epKey string
+	pos        []posRec
+	epKey      string
 }
 
 // mark records that the element identified by key starts on the next line written at this depth
@@ -315,6 +315,17 @@ func RenderPos(in *Intent, indent string) (string, []posRec) {
 				r.stmts(2, ep.Stmts, a)
 			}
 		}
+		if len(a.Collector) > 0 {
+			body = true
+			r.line(1, ".. * <- *:")
+			for _, l := range a.Collector {
+				if l.Kind == "ep" {
+					r.line(2, l.EpName+renderMetaInline(l.Meta))
+				} else {
+					r.line(2, appKey(l.Target)+" <- "+l.Endpoint+renderMetaInline(l.Meta))
+				}
+			}
+		}
 		for _, n := range a.Rest {
 			body = true
 			r.rest(1, n, a)
@@ -509,6 +520,38 @@ func FactsFromIntent(in *Intent) *Facts {
 			ev.Stmts = append(ev.Stmts, &Stmt{Kind: "call", Target: a.Name, Endpoint: subName(ep)})
 		}
 	}
+	// A collector block '.. * <- *' merges the attributes of each of its lines into the named endpoint
+	// or into every matching call statement of the application (lang-spec.md, "Collector"): a key the
+	// target lacks is added, two arrays (tags included) are concatenated, anything else is replaced.
+	for _, a := range in.Apps {
+		if len(a.Collector) == 0 {
+			continue
+		}
+		af := f.Apps[appKey(a.Name)]
+		cf := &EpF{}
+		for _, l := range a.Collector {
+			lm := cloneMetaFacts(l.Meta)
+			if l.Kind == "ep" {
+				cf.Stmts = append(cf.Stmts, &Stmt{Kind: "action", Text: l.EpName, Meta: lm})
+				if ef := af.Eps[l.EpName]; ef != nil {
+					ef.Meta = mergeCollectorMeta(ef.Meta, lm)
+				}
+				continue
+			}
+			cf.Stmts = append(cf.Stmts, &Stmt{Kind: "call", Target: l.Target, Endpoint: l.Endpoint, Meta: lm})
+			for _, ef := range af.Eps {
+				walkStmts(ef.Stmts, func(s *Stmt, _ int) {
+					if s.Kind == "call" && appKey(s.Target) == appKey(l.Target) && s.Endpoint == l.Endpoint {
+						s.Meta = mergeCollectorMeta(s.Meta, lm)
+					}
+				}, 0)
+			}
+		}
+		if af.Eps == nil {
+			af.Eps = map[string]*EpF{}
+		}
+		af.Eps[".. * <- *"] = cf
+	}
 	// A mixin merges the types of the (abstract) mixed-in application into the mixing one
 	// (docs/docs/lang/mixin.md); a type the mixing application declares itself wins.
 	for _, a := range in.Apps {
@@ -529,6 +572,27 @@ func FactsFromIntent(in *Intent) *Facts {
 		}
 	}
 	return f
+}
+
+func mergeCollectorMeta(dst, src Meta) Meta {
+	out := Meta{Tags: append(append([]string{}, dst.Tags...), src.Tags...)}
+	for k, v := range dst.Attrs {
+		if out.Attrs == nil {
+			out.Attrs = map[string]AttrV{}
+		}
+		out.Attrs[k] = v
+	}
+	for k, v := range src.Attrs {
+		if out.Attrs == nil {
+			out.Attrs = map[string]AttrV{}
+		}
+		if d, has := out.Attrs[k]; has && d.IsArr && v.IsArr {
+			out.Attrs[k] = AttrV{IsArr: true, A: append(append([]AttrV{}, d.A...), v.A...)}
+		} else {
+			out.Attrs[k] = v
+		}
+	}
+	return out
 }
 
 func subName(ep *Endpoint) string { return appKey(ep.Source) + " -> " + ep.Event }
